@@ -8,6 +8,7 @@ import (
 	"strings"
 
 	"github.com/tetratelabs/wazero/internal/wasm"
+	"github.com/tetratelabs/wazero/verifharness/memcat"
 	"github.com/tetratelabs/wazero/verifharness/wb"
 )
 
@@ -29,10 +30,14 @@ type Instr struct {
 	A    uint32 `json:"a,omitempty"`
 	B    uint32 `json:"b,omitempty"`
 	Trap string `json:"trap,omitempty"`
-	Inst int    `json:"inst,omitempty"`
-	Fn   int    `json:"fn,omitempty"`
-	Arg  Arg    `json:"arg"`
-	Host string `json:"host,omitempty"` // ok pe ps pv cl ex rc rp (rc/rp use Inst/Fn)
+	// Variant: which concrete instruction realises the trap kind / the memory effect in the generated wasm
+	// ("" = the original one).  The reference semantics sees only the kind: every variant of a kind must fail
+	// with the same documented error class and leave the same state.
+	Variant string `json:"variant,omitempty"`
+	Inst    int    `json:"inst,omitempty"`
+	Fn      int    `json:"fn,omitempty"`
+	Arg     Arg    `json:"arg"`
+	Host    string `json:"host,omitempty"` // ok pe ps pv cl ex rc rp (rc/rp use Inst/Fn)
 }
 
 type Func struct {
@@ -169,7 +174,7 @@ func (w *World) reenterNames() []string {
 
 var fixedHosts = []string{"ok", "pe", "ps", "pv", "cl", "ex"}
 
-var trapKinds = []string{"unreachable", "divzero", "divoverflow", "truncoverflow", "invalidconv", "oobload", "oobstore", "oobtable", "nulltable", "sigmismatch"}
+var trapKinds = []string{"unreachable", "divzero", "divoverflow", "truncoverflow", "invalidconv", "oobload", "oobstore", "oobtable", "nulltable", "sigmismatch", "unaligned"}
 
 // importedInsts: which instances' functions instance k imports.
 func importedInsts(k int) []int {
@@ -308,11 +313,16 @@ func (w *World) opCode(in Instr, hostIdx map[string]uint32, guestIdx map[[2]int]
 	case "ag":
 		return wb.Cat(wb.GlobalGet(in.A), wb.LocalGet(0), wb.Op(wasm.OpcodeI64ExtendI32U), wb.Op(wasm.OpcodeI64Add), wb.GlobalSet(in.A))
 	case "st":
-		return wb.Cat(wb.I32Const(int32(in.A)), wb.I32Const(int32(in.B)), wb.MemArg(wasm.OpcodeI32Store8, 0, 0))
+		return store8Variant(in.Variant, wb.I32Const(int32(in.A)), wb.I32Const(int32(in.B)))
 	case "sx":
-		return wb.Cat(wb.I32Const(int32(in.A)), wb.LocalGet(0), wb.MemArg(wasm.OpcodeI32Store8, 0, 0))
+		return store8Variant(in.Variant, wb.I32Const(int32(in.A)), wb.LocalGet(0))
 	case "tr":
+		if in.Variant != "" {
+			return trapVariant(in.Trap, in.Variant)
+		}
 		switch in.Trap {
+		case "unaligned":
+			return trapVariant("unaligned", "i32.atomic.load")
 		case "unreachable":
 			return wb.Op(wasm.OpcodeUnreachable)
 		case "divzero":
@@ -340,6 +350,127 @@ func (w *World) opCode(in Instr, hostIdx map[string]uint32, guestIdx map[[2]int]
 		return wb.Cat(argCode(in.Arg), wb.Call(hostIdx[in.hostName()]), accAdd)
 	}
 	panic("bad instr " + in.Op + " " + in.Trap)
+}
+
+// store8Variant: mem8[addr] := value through different instructions (all leave exactly that byte changed).
+func store8Variant(v string, addr, val []byte) []byte {
+	at := func(op byte) []byte { return []byte{wasm.OpcodeAtomicPrefix, op, 0, 0} }
+	switch v {
+	case "":
+		return wb.Cat(addr, val, wb.MemArg(wasm.OpcodeI32Store8, 0, 0))
+	case "atomic.store8":
+		return wb.Cat(addr, val, at(wasm.OpcodeAtomicI32Store8))
+	case "atomic.xchg8":
+		return wb.Cat(addr, val, at(wasm.OpcodeAtomicI32Rmw8XchgU), wb.Op(wasm.OpcodeDrop))
+	case "atomic.cmpxchg8": // expected = the current byte, read atomically first
+		return wb.Cat(addr, addr, at(wasm.OpcodeAtomicI32Load8U), val, at(wasm.OpcodeAtomicI32Rmw8CmpxchgU), wb.Op(wasm.OpcodeDrop))
+	case "fence.store8":
+		return wb.Cat([]byte{wasm.OpcodeAtomicPrefix, wasm.OpcodeAtomicFence, 0}, addr, val, wb.MemArg(wasm.OpcodeI32Store8, 0, 0),
+			wb.I32Const(0), wb.I32Const(0), []byte{wasm.OpcodeAtomicPrefix, wasm.OpcodeAtomicMemoryNotify, 2, 0}, wb.Op(wasm.OpcodeDrop))
+	case "atomic.or16": // a 16-bit read-modify-write that changes nothing, then the store
+		return wb.Cat(wb.I32Const(64), wb.I32Const(0), []byte{wasm.OpcodeAtomicPrefix, wasm.OpcodeAtomicI32Rmw16OrU, 1, 0}, wb.Op(wasm.OpcodeDrop),
+			addr, val, wb.MemArg(wasm.OpcodeI32Store8, 0, 0))
+	}
+	panic("bad store variant " + v)
+}
+
+var store8Variants = []string{"atomic.store8", "atomic.xchg8", "atomic.cmpxchg8", "fence.store8", "atomic.or16"}
+
+// trapVariants: the concrete instructions per trap kind (catalogue of memory instructions from package memcat,
+// bulk memory and table instructions, every trapping division and truncation).
+var trapVariants = map[string][]string{}
+
+func init() {
+	for _, o := range memcat.All() {
+		if o.Store || o.Rmw {
+			trapVariants["oobstore"] = append(trapVariants["oobstore"], o.Name)
+		} else {
+			trapVariants["oobload"] = append(trapVariants["oobload"], o.Name)
+		}
+		if o.Atomic && o.W > 1 {
+			trapVariants["unaligned"] = append(trapVariants["unaligned"], o.Name)
+		}
+	}
+	trapVariants["oobstore"] = append(trapVariants["oobstore"], "memory.fill", "memory.copy")
+	trapVariants["oobtable"] = []string{"table.get", "table.set", "table.fill", "table.copy"}
+	trapVariants["divzero"] = []string{"i32.div_s", "i32.rem_s", "i32.rem_u", "i64.div_s", "i64.div_u", "i64.rem_s", "i64.rem_u"}
+	trapVariants["divoverflow"] = []string{"i64.div_s"}
+	for _, t := range []string{"i32.trunc_f32_u", "i32.trunc_f64_s", "i32.trunc_f64_u", "i64.trunc_f32_s", "i64.trunc_f32_u", "i64.trunc_f64_s", "i64.trunc_f64_u"} {
+		trapVariants["truncoverflow"] = append(trapVariants["truncoverflow"], t)
+		trapVariants["invalidconv"] = append(trapVariants["invalidconv"], t)
+	}
+}
+
+func memcatOp(name string) memcat.Op {
+	for _, o := range memcat.All() {
+		if o.Name == name {
+			return o
+		}
+	}
+	panic("unknown memory instruction " + name)
+}
+
+func trapVariant(kind, v string) []byte {
+	drop := wb.Op(wasm.OpcodeDrop)
+	misc := func(op byte, imm ...byte) []byte { return append([]byte{wasm.OpcodeMiscPrefix, op}, imm...) }
+	switch kind {
+	case "oobload", "oobstore", "unaligned":
+		switch v {
+		case "memory.fill": // [65530, 65540) crosses the end: nothing is written
+			return wb.Cat(wb.I32Const(65530), wb.I32Const(0xAB), wb.I32Const(10), misc(wasm.OpcodeMiscMemoryFill, 0))
+		case "memory.copy":
+			return wb.Cat(wb.I32Const(65530), wb.I32Const(0), wb.I32Const(10), misc(wasm.OpcodeMiscMemoryCopy, 0, 0))
+		}
+		o := memcatOp(v)
+		addr := int32(65536) // aligned and entirely outside
+		if kind == "unaligned" {
+			addr = 1
+		} else if !o.Atomic && o.W > 1 {
+			addr = int32(65536 - o.W + 1) // straddles the end: the in-bounds part must not be written
+		}
+		code := wb.Cat(wb.I32Const(addr), o.Operands(0xA5A5A5A5A5A5A5A5, 0), o.Instr(0))
+		if o.Result() != 0 {
+			code = append(code, drop...)
+		}
+		return code
+	case "oobtable":
+		null := []byte{wasm.OpcodeRefNull, wasm.RefTypeFuncref}
+		switch v {
+		case "table.get":
+			return wb.Cat(wb.I32Const(1000), []byte{wasm.OpcodeTableGet, 0}, drop)
+		case "table.set":
+			return wb.Cat(wb.I32Const(1000), null, []byte{wasm.OpcodeTableSet, 0})
+		case "table.fill": // [3, 8) crosses the end of the 4-element table: nothing is written
+			return wb.Cat(wb.I32Const(3), null, wb.I32Const(5), misc(wasm.OpcodeMiscTableFill, 0))
+		case "table.copy":
+			return wb.Cat(wb.I32Const(2), wb.I32Const(0), wb.I32Const(5), misc(wasm.OpcodeMiscTableCopy, 0, 0))
+		}
+	case "divzero", "divoverflow":
+		c, z := wb.LocalGet(0), zero()
+		if v[:3] == "i64" {
+			c, z = wb.Cat(wb.LocalGet(0), wb.Op(wasm.OpcodeI64ExtendI32U)), wb.Cat(zero(), wb.Op(wasm.OpcodeI64ExtendI32U))
+		}
+		if kind == "divoverflow" { // i64.div_s MinInt64 -1
+			return wb.Cat(wb.I64Const(math.MinInt64), z, wb.I64Const(1), wb.Op(wasm.OpcodeI64Sub), wb.Op(wasm.OpcodeI64DivS), drop)
+		}
+		op := map[string]byte{"i32.div_s": wasm.OpcodeI32DivS, "i32.rem_s": wasm.OpcodeI32RemS, "i32.rem_u": wasm.OpcodeI32RemU,
+			"i64.div_s": wasm.OpcodeI64DivS, "i64.div_u": wasm.OpcodeI64DivU, "i64.rem_s": wasm.OpcodeI64RemS, "i64.rem_u": wasm.OpcodeI64RemU}[v]
+		return wb.Cat(c, z, wb.Op(op), drop)
+	case "truncoverflow", "invalidconv":
+		op := map[string]byte{"i32.trunc_f32_u": wasm.OpcodeI32TruncF32U, "i32.trunc_f64_s": wasm.OpcodeI32TruncF64S, "i32.trunc_f64_u": wasm.OpcodeI32TruncF64U,
+			"i64.trunc_f32_s": wasm.OpcodeI64TruncF32S, "i64.trunc_f32_u": wasm.OpcodeI64TruncF32U, "i64.trunc_f64_s": wasm.OpcodeI64TruncF64S, "i64.trunc_f64_u": wasm.OpcodeI64TruncF64U}[v]
+		var val []byte
+		if kind == "truncoverflow" {
+			val = wb.Cat(f32const(1e30), zero(), wb.Op(wasm.OpcodeF32ConvertI32S), wb.Op(wasm.OpcodeF32Add))
+		} else {
+			val = wb.Cat(zero(), wb.Op(wasm.OpcodeF32ConvertI32S), zero(), wb.Op(wasm.OpcodeF32ConvertI32S), wb.Op(wasm.OpcodeF32Div))
+		}
+		if v[10:13] == "f64" {
+			val = append(val, wasm.OpcodeF64PromoteF32)
+		}
+		return wb.Cat(val, wb.Op(op), drop)
+	}
+	panic("bad trap variant " + kind + "/" + v)
 }
 
 // ---------------------------------------------------------------- generator
@@ -375,7 +506,25 @@ func (g *gen) arg() Arg {
 // no unbounded recursion except the explicit self-recursion forms.
 func rank(inst, fn int) int { return inst*100 + fn }
 
-func (g *gen) effect() Instr {
+// variant picks a concrete instruction for a trap kind / store effect (half of the time the original one).
+func (g *gen) variant(in Instr) Instr {
+	if g.r.Intn(2) == 0 {
+		return in
+	}
+	switch in.Op {
+	case "st", "sx":
+		in.Variant = store8Variants[g.r.Intn(len(store8Variants))]
+	case "tr":
+		if vs := trapVariants[in.Trap]; len(vs) > 0 {
+			in.Variant = vs[g.r.Intn(len(vs))]
+		}
+	}
+	return in
+}
+
+func (g *gen) effect() Instr { return g.variant(g.effect0()) }
+
+func (g *gen) effect0() Instr {
 	switch g.r.Intn(4) {
 	case 0:
 		return Instr{Op: "sg", A: uint32(g.r.Intn(2)), B: uint32(1 + g.r.Intn(1000))}
@@ -472,7 +621,7 @@ func (g *gen) fn(w *World, k, f int, recBudget *int) Func {
 		fn.Body = append(fn.Body, e)
 		fn.Body = append(fn.Body, Instr{G: Guard{K: "n", N: 0}, Op: "ca", Inst: k, Fn: f, Arg: Arg{K: "m"}})
 		if g.r.Intn(2) == 0 {
-			fn.Body = append(fn.Body, Instr{G: g.guard(params), Op: "tr", Trap: trapKinds[g.r.Intn(len(trapKinds))]})
+			fn.Body = append(fn.Body, g.variant(Instr{G: g.guard(params), Op: "tr", Trap: trapKinds[g.r.Intn(len(trapKinds))]}))
 		}
 		e = g.effect()
 		e.G = Guard{K: "a"}
@@ -485,7 +634,7 @@ func (g *gen) fn(w *World, k, f int, recBudget *int) Func {
 		case c < 7:
 			in = g.effect()
 		case c < 10:
-			in = Instr{Op: "tr", Trap: trapKinds[g.r.Intn(len(trapKinds))]}
+			in = g.variant(Instr{Op: "tr", Trap: trapKinds[g.r.Intn(len(trapKinds))]})
 		case c < 14:
 			cs := callable(w, k, f)
 			if len(cs) == 0 {
